@@ -321,8 +321,9 @@ class FlatSet : private Compare {
 
 #ifdef AMC_CXX17
   node_type extract(const_iterator position) {
-    node_type nt(std::move(*const_cast<miterator>(position)), get_allocator());
-    _sortedVector.erase(position);
+    miterator it = mbegin() + (position - begin());
+    node_type nt(std::move(*it), get_allocator());
+    _sortedVector.erase(it);
     return nt;
   }
 
